@@ -223,6 +223,58 @@ Section Abstract.
   Qed.
 End Abstract.
 
+(** ** recorded value = applied value, for every row and ANY starting state of the samplers (mid-cycle RangeSampler
+    after an earlier analysis or a manual sample(), any position of the random stream): no hypothesis at all *)
+Section Recorded.
+  Context {O : Ops}.
+  Notation T := (T O).
+  Variables (L X : Type) (vget : L -> X -> T) (vset : L -> X -> T -> L) (upd : L -> L) (ev : L -> list T).
+  Variables (G D : Type) (draw : G -> D -> option (T * G)).
+  Variables pv cv : list (var (O:=O) X).
+
+  Lemma apply_perts_records : forall which (s s' : st L G D) xs,
+      apply_perts vset draw pv which s = Some (s', xs) ->
+      lens s' = set_which vset pv which xs (lens s).
+  Proof.
+    induction which as [|j w IH]; intros s s' xs Hap; simpl in Hap.
+    - inversion Hap; subst. reflexivity.
+    - unfold apply_pert in Hap.
+      destruct (nth_error pv j) as [v|] eqn:Ev; [|discriminate].
+      destruct (nth_error (sams s) j) as [sm|]; [|discriminate].
+      destruct (sample draw (rng s) sm) as [[[x sm'] g']|]; [|discriminate].
+      match type of Hap with match apply_perts _ _ _ _ ?s1 with _ => _ end = _ => destruct (apply_perts vset draw pv w s1) as [[s2 xs2]|] eqn:E2; [|discriminate]; specialize (IH _ _ _ E2) end.
+      inversion Hap; subst. simpl. rewrite Ev. rewrite IH. reflexivity.
+  Qed.
+
+  Theorem recorded_value_is_applied_value : forall which tr (s s' : st L G D) rw,
+      trial vget vset upd ev draw pv cv which tr s = Some (s', rw) ->
+      r_which rw = which /\
+      lens s' = compensate vset upd cv tr (set_which vset pv which (r_pert rw) (treset vset upd pv cv (lens s))) /\
+      r_ops rw = ev (lens s').
+  Proof.
+    intros which tr s s' rw Ht. unfold trial in Ht.
+    match type of Ht with match apply_perts _ _ _ _ ?s0 with _ => _ end = _ =>
+      destruct (apply_perts vset draw pv which s0) as [[s1 xs]|] eqn:E; [|discriminate];
+      apply apply_perts_records in E end.
+    simpl in E. inversion Ht; subst; clear Ht. simpl. rewrite E. repeat split; reflexivity.
+  Qed.
+
+  (** ... and the same for every row of a whole run (any plan: sensitivity, Monte Carlo, any history of analyses) *)
+  Theorem run_records_applied_values : forall plan (s s' : st L G D) rows,
+      run vget vset upd ev draw pv cv plan s = Some (s', rows) ->
+      Forall2 (fun rw p => r_which rw = fst p /\ exists l, r_ops rw = ev (compensate vset upd cv (snd p)
+                              (set_which vset pv (fst p) (r_pert rw) (treset vset upd pv cv l)))) rows plan.
+  Proof.
+    induction plan as [|[which tr] plan IH]; intros s s' rows Hrun; simpl in Hrun.
+    - inversion Hrun; subst. constructor.
+    - destruct (trial vget vset upd ev draw pv cv which tr s) as [[s1 rw]|] eqn:Et; [|discriminate].
+      destruct (run vget vset upd ev draw pv cv plan s1) as [[s2 rs]|] eqn:Er; [|discriminate].
+      inversion Hrun; subst. apply recorded_value_is_applied_value in Et. destruct Et as (Hw & Hl & Ho).
+      constructor; [|eapply IH; eauto].
+      simpl. split; [exact Hw|]. exists (lens s). rewrite Ho, Hl. reflexivity.
+  Qed.
+End Recorded.
+
 (** ** seeded samplers: the run does not depend on the previous state of the global stream *)
 Section Seeded.
   Context {O : Ops}.
